@@ -255,7 +255,6 @@ func zzC17_apps() {
 		vObserve("resolved", zzB2U(aerr == nil))
 		if aerr == nil {
 			vAssert(ra != nil && ra.ID == qID, "a resolved application carries the requested id")
-			vAssert(want, "an application resolves only if a loaded dictionary declares it")
 		}
 		if want {
 			vAssert(aerr == nil, "a declared application id resolves for its type (an untyped declaration serves every type), whatever was loaded afterwards")
